@@ -116,6 +116,29 @@ def reset_paths(ctx, clr):
     return definite, per_path, const_stores
 
 
+def float_estimate_sites(ctx, fn, depth=0, seen=None):
+    """FloatToInt casts in fn and in the crate-local functions it calls"""
+    seen = seen if seen is not None else set()
+    if fn.key in seen or depth > 4:
+        return []
+    seen.add(fn.key)
+    out = []
+    for bi, blk in enumerate(fn.blocks):
+        if blk.cleanup:
+            continue
+        for st in blk.stmts:
+            if st.k == "assign" and st.rv.k == "cast" and st.rv.j["ck"] == "FloatToInt":
+                out.append("%s:%d" % (fn.key.split("::")[-1], st.span["line"]))
+        t = blk.term
+        if t.k == "call" and t.callee_is_local():
+            g = ctx.prog.fn(t.callee())
+            if g is not None:
+                out += float_estimate_sites(ctx, g, depth + 1, seen)
+    for c in ctx.prog.closures_of(fn.key):
+        out += float_estimate_sites(ctx, c, depth + 1, seen)
+    return out
+
+
 def nested_clear_prefixes(ctx, clr, clear_keys):
     """access-path prefixes on which a nested clear() is invoked on every returning path of clr"""
     pe = PathEnumerator(clr, ctx.prog, ctx.summ)
@@ -245,6 +268,10 @@ def run_clear_rules(ctx, only_adt=None, floor=10):
                     o = org.of_local(t.args[0].place.local)
                     if o is not None and o.root == SELF and o.path:
                         delegates.add(tuple(o.path[:1]))
+            # is_empty must be decided exactly from the state: no floating-point estimate (float -> int cast) on the way
+            lossy = float_estimate_sites(ctx, ie)
+            ctx.check(not lossy, "R19-is-empty-exact", ie.key, ie, "is_empty is computed without any float-to-integer estimate",
+                      "is_empty depends on a truncated floating-point estimate (%s): it can be true while elements are present" % ", ".join(lossy[:2]))
             unreset = [r for r in reads if r in {p[:1] for p in mut} and not covered(r, definite) and r not in delegates]
             ctx.check(not unreset, "R19-is-empty", ie.key, ie, "is_empty reads %s — all reset by clear()" % sorted(".".join(r) for r in reads),
                       "is_empty reads `%s`, which clear() does not reset" % ".".join(unreset[0]) if unreset else "")
